@@ -118,6 +118,9 @@ func rtClasses(c CaseRT, info rgen.MsgInfo) (classes []string, nontrivial bool) 
 	if info.RefOnlyVehicles > 0 {
 		classes = append(classes, "ref-only-vehicle")
 	}
+	if info.SizeClass > 0 {
+		classes = append(classes, "size-class")
+	}
 	classes = dedupe(classes)
 	nontrivial = len(c.Msg.Entities) >= 2 && info.Kinds >= 2 && present >= 1 && absent >= 1
 	return
